@@ -92,4 +92,15 @@ def mediaTypeToFormat (m : String) : Option String :=
 def formatToMediaType (f : String) : Option String :=
   (Generated.C19.formatToMediaType.find? fun p => p.1 == f).map (·.2)
 
+/-- `service.newRequest`: the response format is that of the first entry of the Accept list
+    (already split at commas, trimmed, parameters dropped) that is a known media type; an
+    empty entry or `*/*` selects the default; no usable entry is an error (400). -/
+def negotiate (dflt : String) : List String → Option String
+  | [] => none
+  | m :: rest =>
+    if m = "" ∨ m = "*/*" then some dflt
+    else match mediaTypeToFormat m with
+      | some f => some f
+      | none => negotiate dflt rest
+
 end Zed.Svc
